@@ -133,6 +133,11 @@ impl Engine for BodyEngine {
                 let resp_ctor = c2.resp_ctor;
                 let handler = tower::service_fn(move |req: http::Request<hyperdriver::Body>| async move {
                     let hint = req.body().size_hint();
+                    if resp_ctor as usize == CTORS {
+                        // proxy-style: the received body (a `Body` around hyper's incoming stream) is sent
+                        // back as it is, frame by frame, never collected
+                        return Ok::<_, std::io::Error>(http::Response::builder().header("x-passthrough", "1").header("x-hint", format!("{}-{:?}", hint.lower(), hint.upper())).body(req.into_body()).unwrap());
+                    }
                     let got = req.into_body().collect().await.map(|b| b.to_bytes()).map_err(|e| std::io::Error::other(format!("{e}")))?;
                     // the response tells the client what arrived and carries a body of its own
                     let (body, _) = build(resp_ctor, got.len(), 2);
@@ -170,10 +175,14 @@ impl Engine for BodyEngine {
                 let hdr = |n: &str| resp.headers().get(n).and_then(|v| v.to_str().ok()).map(String::from).unwrap_or_default();
                 let (got_len, got_sum, hint) = (hdr("x-got-len"), hdr("x-got-sum"), hdr("x-hint"));
                 let want_sum: u64 = want.iter().map(|b| *b as u64).sum();
-                if got_len != want.len().to_string() || got_sum != want_sum.to_string() {
+                let passthrough = c2.resp_ctor as usize == CTORS;
+                if passthrough && hdr("x-passthrough") != "1" {
+                    return Err(("e2e-response-head-altered".to_string(), "the pass-through marker header is missing".to_string()));
+                }
+                if !passthrough && (got_len != want.len().to_string() || got_sum != want_sum.to_string()) {
                     return Err(("e2e-request-body-altered".to_string(), format!("sent {} bytes (sum {want_sum}), the handler received {got_len} bytes (sum {got_sum}, size hint {hint})", want.len())));
                 }
-                let (_, want_resp) = build(c2.resp_ctor, want.len(), 2);
+                let want_resp = if passthrough { want.clone() } else { build(c2.resp_ctor, want.len(), 2).1 };
                 let body = match tokio::time::timeout(Duration::from_secs(5), resp.into_body().collect()).await {
                     Err(_) => return Err(("e2e-response-body-never-ends".to_string(), String::new())),
                     Ok(Err(e)) => return Err(("e2e-response-body-failed".to_string(), format!("{e}"))),
@@ -188,7 +197,7 @@ impl Engine for BodyEngine {
         }))
         .map_err(|_| ());
         drop(rt);
-        let desc = format!("request body constructor {} ({} bytes), response body constructor {}, HTTP/{}", c.ctor as usize % CTORS, len, c.resp_ctor as usize % CTORS, if c.h2 { 2 } else { 1 });
+        let desc = format!("request body constructor {} ({} bytes), response body {}, HTTP/{}", c.ctor as usize % CTORS, len, if c.resp_ctor as usize == CTORS { "= the received request body passed through".to_string() } else { format!("constructor {}", c.resp_ctor as usize % CTORS) }, if c.h2 { 2 } else { 1 });
         for (loc, msg) in crate::panichook::take_all() {
             if crate::panichook::in_library(&loc) {
                 rep.violate("C01/body-adapter/panic", format!("{desc}: panic at {loc}: {msg}"));
@@ -204,6 +213,9 @@ impl Engine for BodyEngine {
             }
         }
         rep.class("body-adapter");
+        if c.resp_ctor as usize == CTORS {
+            rep.class("body-passed-through-by-the-handler");
+        }
         if len == 0 || matches!(c.ctor as usize % CTORS, 0 | 1 | 8) {
             rep.class("body-adapter-empty");
         }
@@ -215,5 +227,5 @@ impl Engine for BodyEngine {
 
 pub fn strategy() -> impl proptest::strategy::Strategy<Value = BodyCase> {
     use proptest::prelude::*;
-    (0u8..CTORS as u8, 0u8..CTORS as u8, prop_oneof![2 => Just(0u16), 2 => 1u16..64, 2 => 64u16..5000, 1 => 5000u16..40000], 0u8..3, any::<bool>()).prop_map(|(ctor, resp_ctor, len, via, h2)| BodyCase { ctor, resp_ctor, len, via, h2 })
+    (0u8..CTORS as u8, 0u8..=CTORS as u8, prop_oneof![2 => Just(0u16), 2 => 1u16..64, 2 => 64u16..5000, 1 => 5000u16..40000], 0u8..3, any::<bool>()).prop_map(|(ctor, resp_ctor, len, via, h2)| BodyCase { ctor, resp_ctor, len, via, h2 })
 }
